@@ -21,6 +21,10 @@ A checker takes a candidate point together with PSD witnesses (`EMat.psdCert`, o
 every constraint is verified exactly, `none` otherwise.
 
 Exactly computable quantities: `hsDist`, `hsInner`, `trProd`, `trProd4`, `subFidRad`.
+
+Commuting pairs: exact evaluators on the spectra (`classTD`, `classHS`, `classTrProd`, …) and square-root certificates
+for the classical fidelity (`checkClassFidLower/Upper`); rounding of the Bures functions (`roundDec`); the decision
+logic of the argument guards (`densityGuard`, `guardShapeFirst`, `guardDensityFirst`).
 -/
 
 namespace Toq.Metrics
@@ -112,5 +116,86 @@ def trProd4 (ρ σ : EMat n n) : Rat := ((ρ.mul σ).mul (ρ.mul σ)).trace.re
 
 /-- `2 [(tr ρσ)² − tr(ρσρσ)]`: the sub-fidelity is `E = trProd + √subFidRad` -/
 def subFidRad (ρ σ : EMat n n) : Rat := 2 * (trProd ρ σ * trProd ρ σ - trProd4 ρ σ)
+
+/-! ## Commuting (classical) case: exact evaluators on the spectra
+
+For a commuting pair `ρ = U diag(p) Uᴴ`, `σ = U diag(q) Uᴴ` every measure is a function of the spectra
+`p, q : Fin n → Rat` (theorems `traceDist_commuting`, `fid_commuting`, … in `Properties/C13.lean`):
+`T = ½ Σ|p_i − q_i|`, `F = Σ √(p_i q_i)`, `tr((ρ−σ)²) = Σ (p_i − q_i)²`, `tr(ρσ) = Σ p_i q_i`, `tr(ρσρσ) = Σ p_i² q_i²`.
+The irrational `F` is enclosed by certificates `s` with `s_i² ≤ p_i q_i` (lower) or `p_i q_i ≤ s_i²` (upper). -/
+
+def absQ (x : Rat) : Rat := if x < 0 then -x else x
+
+/-- probability vector: non-negative entries summing to one -/
+def isProb (p : Fin n → Rat) : Bool := allFin n (fun i => decide (0 ≤ p i)) && decide (sumFinQ n p = 1)
+
+/-- `½ Σ |p_i − q_i|` -/
+def classTD (p q : Fin n → Rat) : Rat := sumFinQ n (fun i => absQ (p i - q i)) / 2
+
+/-- `Σ (p_i − q_i)²` -/
+def classHS (p q : Fin n → Rat) : Rat := sumFinQ n fun i => (p i - q i) * (p i - q i)
+
+/-- `Σ p_i q_i` -/
+def classTrProd (p q : Fin n → Rat) : Rat := sumFinQ n fun i => p i * q i
+
+/-- `Σ (p_i q_i)²` -/
+def classTrProd4 (p q : Fin n → Rat) : Rat := sumFinQ n fun i => p i * q i * (p i * q i)
+
+/-- radicand of the sub-fidelity, `2 [(Σ p_i q_i)² − Σ (p_i q_i)²]` -/
+def classSubFidRad (p q : Fin n → Rat) : Rat := 2 * (classTrProd p q * classTrProd p q - classTrProd4 p q)
+
+/-- `some (Σ s_i)` iff `0 ≤ s_i` and `s_i² ≤ p_i q_i` for all `i` (then `Σ s_i ≤ Σ √(p_i q_i)`) -/
+def checkClassFidLower (p q s : Fin n → Rat) : Option Rat :=
+  if allFin n (fun i => decide (0 ≤ s i) && decide (s i * s i ≤ p i * q i)) then some (sumFinQ n s) else none
+
+/-- `some (Σ s_i)` iff `0 ≤ s_i` and `p_i q_i ≤ s_i²` for all `i` (then `Σ √(p_i q_i) ≤ Σ s_i`) -/
+def checkClassFidUpper (p q s : Fin n → Rat) : Option Rat :=
+  if allFin n (fun i => decide (0 ≤ s i) && decide (p i * q i ≤ s i * s i)) then some (sumFinQ n s) else none
+
+/-! ## Rounding to `decimals` places (`bures_distance`, `bures_angle`: `np.round(fidelity, decimals)`) -/
+
+/-- round half to even (`numpy.rint`) -/
+def roundHalfEven (x : Rat) : Int :=
+  let f := x.floor
+  let r := x - f
+  if r < 1 / 2 then f else if 1 / 2 < r then f + 1 else if f % 2 = 0 then f else f + 1
+
+/-- `np.round(x, d)` for `d ≥ 0`: `rint(x · 10^d) / 10^d` -/
+def roundDec (x : Rat) (d : Nat) : Rat := (roundHalfEven (x * (10 : Rat) ^ d) : Rat) / (10 : Rat) ^ d
+
+/-- the square of `bures_distance`: `2 (1 − round(F, d))` -/
+def buresDistSq (F : Rat) (d : Nat) : Rat := 2 * (1 - roundDec F d)
+
+/-- the value `round(F, d)` common to every `F ∈ [lo, hi]`, if the two endpoints round to the same value -/
+def roundDecEncl (lo hi : Rat) (d : Nat) : Option Rat :=
+  if lo ≤ hi ∧ roundDec lo d = roundDec hi d then some (roundDec lo d) else none
+
+/-! ## Argument guards (decision logic of the `is_density` / shape checks) -/
+
+/-- how a call ends: the two kinds of `ValueError`, or a value is computed -/
+inductive Outcome
+  | invalidDim
+  | notDensity
+  | value
+  deriving DecidableEq, Repr
+
+/-- `atol` of `is_positive_semidefinite` / `np.isclose` -/
+def guardAtol : Rat := 1 / 100000000
+/-- `rtol` of `np.isclose` -/
+def guardRtol : Rat := 1 / 100000
+
+/-- `is_density` on exact spectral data of the argument: Hermitian within tolerance, smallest eigenvalue `≥ −atol`,
+`|tr − 1| ≤ atol + rtol·1` (`np.isclose(np.trace(mat), 1)`; the trace may be complex) -/
+def densityGuard (herm : Bool) (minEig trRe trIm : Rat) : Bool :=
+  herm && decide (-guardAtol ≤ minEig) &&
+    decide ((trRe - 1) * (trRe - 1) + trIm * trIm ≤ (guardAtol + guardRtol) * (guardAtol + guardRtol))
+
+/-- `fidelity`, `sub_fidelity`, `matsumoto_fidelity`, `bures_distance`, `bures_angle`: shape check first, then `is_density` of both -/
+def guardShapeFirst (sameShape densA densB : Bool) : Outcome :=
+  if !sameShape then .invalidDim else if !densA || !densB then .notDensity else .value
+
+/-- `trace_distance`, `helstrom_holevo`, `hilbert_schmidt`: `is_density` of both first; a shape mismatch then fails in `rho - sigma` -/
+def guardDensityFirst (sameShape densA densB : Bool) : Outcome :=
+  if !densA || !densB then .notDensity else if !sameShape then .invalidDim else .value
 
 end Toq.Metrics
